@@ -27,6 +27,34 @@ struct Sent {
     oversize: bool,
 }
 
+struct ExitGuard {
+    client: Arc<StatsdClient>,
+    t: usize,
+    seq: usize,
+    cap: usize,
+    out: Arc<std::sync::Mutex<Vec<(usize, Sent)>>>,
+}
+
+impl Drop for ExitGuard {
+    fn drop(&mut self) {
+        let key = format!("t{}.s{}.exit", self.t, self.seq);
+        let seq = self.seq;
+        let rec = match panics::guard(|| self.client.gauge(&key, seq as u64)) {
+            Ok(Ok(m)) => {
+                let text = m.as_metric_str().to_string();
+                let oversize = text.len() + 1 > self.cap;
+                Sent { seq, text, ok: true, oversize }
+            }
+            _ => Sent { seq, text: format!("{}:{}|g", key, seq), ok: false, oversize: false },
+        };
+        self.out.lock().unwrap_or_else(|e| e.into_inner()).push((self.t, rec));
+    }
+}
+
+thread_local! {
+    static EXIT: std::cell::RefCell<Option<ExitGuard>> = const { std::cell::RefCell::new(None) };
+}
+
 fn run_case(rep: &mut Report, args: &Args, cs: u64, sink_kind: &str) {
     let mut rng = Rng::new(cs);
     let threads = *rng.pick(&[2usize, 3, 4, 8, 16, 32]);
@@ -128,6 +156,11 @@ fn run_case(rep: &mut Report, args: &Args, cs: u64, sink_kind: &str) {
     };
     let barrier = Arc::new(Barrier::new(threads));
     let arrived = Arc::new(std::sync::atomic::AtomicUsize::new(0));
+    let tls_exit = cs % 2 == 0;
+    if tls_exit {
+        rep.obs("stress_runs_whose_threads_emit_once_more_from_a_thread_local_destructor_at_exit", 1);
+    }
+    let exit_sent: Arc<std::sync::Mutex<Vec<(usize, Sent)>>> = Arc::new(std::sync::Mutex::new(Vec::new()));
     let mut joins = Vec::new();
     for t in 0..threads {
         let client = client.clone();
@@ -136,10 +169,16 @@ fn run_case(rep: &mut Report, args: &Args, cs: u64, sink_kind: &str) {
         let mut r = rng.fork();
         let does_flush = t < flushers;
         let rx_probe = rx_probe.clone();
+        let exit_sent = exit_sent.clone();
         joins.push(std::thread::spawn(move || {
             let mut sent: Vec<Sent> = Vec::with_capacity(per_thread);
             let mut flush_points: Vec<(usize, u64)> = Vec::new();
             let mut panicked: Option<String> = None;
+            // every other run: each thread owns a thread-local (initialised here, before its first emit) whose destructor
+            // reports one more metric when the thread exits - after everything else this thread has emitted
+            if tls_exit {
+                EXIT.with(|e| *e.borrow_mut() = Some(ExitGuard { client: client.clone(), t, seq: per_thread + 1, cap, out: exit_sent.clone() }));
+            }
             barrier.wait();
             for n in 0..per_thread {
                 // key carries (thread, sequence); padding varies the length; a few are too big for the buffer
@@ -203,12 +242,18 @@ fn run_case(rep: &mut Report, args: &Args, cs: u64, sink_kind: &str) {
     let mut per_thread_sent: Vec<Vec<Sent>> = Vec::new();
     let mut per_thread_flush: Vec<Vec<(usize, u64)>> = Vec::new();
     let mut panic_msg = None;
-    for j in joins {
+    for (ti, j) in joins.into_iter().enumerate() {
         match j.join() {
-            Ok((s, p, fp)) => {
+            Ok((mut s, p, fp)) => {
                 if p.is_some() {
                     panic_msg = p;
                 }
+                // (thread-local destructors have run by the time join returns)
+                let mut ex = exit_sent.lock().unwrap_or_else(|e| e.into_inner());
+                while let Some(i) = ex.iter().position(|(t, _)| *t == ti) {
+                    s.push(ex.remove(i).1);
+                }
+                drop(ex);
                 per_thread_sent.push(s);
                 per_thread_flush.push(fp);
             }
@@ -420,10 +465,78 @@ fn udp_stream_index_limit(base: u64, mark: u64) -> usize {
     g.log[base as usize..(mark as usize).min(g.log.len())].iter().filter(|r| r.result >= 0).count()
 }
 
+/// Two buffered sinks alive in one process (every event goes to two destinations), driven by the same threads: a flush of
+/// one that returns Ok has written what THAT sink accepted from the flushing thread - whatever the thread did with the
+/// other sink a moment before (same number of metrics, a flush of its own).
+fn twin_case(rep: &mut Report, args: &Args, cs: u64) {
+    let mut rng = Rng::new(cs);
+    let threads = *rng.pick(&[1usize, 2, 3]);
+    let cap = *rng.pick(&[24usize, 64, 512]);
+    let (rx1, s1) = BufferedSpyMetricSink::with_capacity(None, Some(cap));
+    let (rx2, s2) = BufferedSpyMetricSink::with_capacity(None, Some(cap));
+    let (s1, s2) = (Arc::new(s1), Arc::new(s2));
+    // a collector per sink: drains the channel into a shared byte log (a flush that has returned has finished its send)
+    let logs: [Arc<std::sync::Mutex<Vec<u8>>>; 2] = [Arc::new(std::sync::Mutex::new(Vec::new())), Arc::new(std::sync::Mutex::new(Vec::new()))];
+    let bad: Arc<std::sync::Mutex<Option<String>>> = Arc::new(std::sync::Mutex::new(None));
+    let rounds = rng.range(20, 120) as usize;
+    let mut joins = Vec::new();
+    for t in 0..threads {
+        let (s1, s2, rx1, rx2, logs, bad) = (s1.clone(), s2.clone(), rx1.clone(), rx2.clone(), logs.clone(), bad.clone());
+        joins.push(std::thread::spawn(move || {
+            let mut mine: [Vec<String>; 2] = [Vec::new(), Vec::new()];
+            for k in 0..rounds {
+                for (i, s) in [&s1, &s2].iter().enumerate() {
+                    let m = format!("twin{}.t{}.n{}:{}|c", i + 1, t, k, k);
+                    if s.emit(&m).is_ok() {
+                        mine[i].push(m);
+                    }
+                }
+                if k % 3 == 2 {
+                    for (i, (s, rx)) in [(&s1, &rx1), (&s2, &rx2)].iter().enumerate() {
+                        if s.flush().is_ok() {
+                            let mut log = logs[i].lock().unwrap_or_else(|e| e.into_inner());
+                            while let Ok(b) = rx.try_recv() {
+                                log.extend_from_slice(&b);
+                            }
+                            let text = String::from_utf8_lossy(&log).to_string();
+                            if let Some(missing) = mine[i].iter().find(|m| !text.split('\n').any(|l| l == m.as_str())) {
+                                let mut b = bad.lock().unwrap_or_else(|e| e.into_inner());
+                                if b.is_none() {
+                                    *b = Some(format!("thread {} flushed sink {} of two (Ok) after round {}; its acknowledged metric {:?} is not among the {} bytes that sink has written", t, i + 1, k, missing, log.len()));
+                                }
+                                return;
+                            }
+                        }
+                    }
+                }
+            }
+        }));
+    }
+    for j in joins {
+        let _ = j.join();
+    }
+    rep.eval();
+    rep.obs("twin_sink_histories_one_thread_flushing_two_buffered_sinks", 1);
+    rep.distinct(&format!("twin|T{}|cap{}", threads, cap));
+    let b = bad.lock().unwrap_or_else(|e| e.into_inner()).clone();
+    if let Some(b) = b {
+        rep.violation(Violation { property: "C12".into(), rule: "F2".into(), class: "flush-left-data".into(), detail: format!("[twin spy sinks T={} cap={}] {}", threads, cap, b), replay_args: args.to_vec_with(&[("twin-case", cs.to_string())]), trace: Json::Null });
+    }
+}
+
 fn main() {
     let args = Args::from_env();
     panics::install_hook();
     let mut rep = Report::new("conc_driver", "C12");
+    if let Some(cs) = args.get("twin-case").and_then(|s| s.parse::<u64>().ok()) {
+        twin_case(&mut rep, &args, cs);
+        std::process::exit(rep.finish(args.get("out")));
+    }
+    if args.str("sink", "spy") == "spy" && args.get("case-seed").is_none() {
+        for i in 0..6u64 {
+            twin_case(&mut rep, &args, mix(&[args.u64("seed", 1), 0x7717, args.u64("shard", 0), i]));
+        }
+    }
     let seed = args.u64("seed", 1);
     let shard = args.u64("shard", 0);
     let cases = args.u64("cases", 4);
